@@ -100,6 +100,8 @@ structure M where
   savedSimulName : Val := 0      -- static saved_simul_name
   efunCtx : List Nat := []       -- the contexts efuns keep in file-scope lists across their callbacks (sort_ctx_top / sort_array_ftc,
                                  -- g_u_list, g_u_m_list): innermost first; every one has a T_ERROR_HANDLER slot that unlinks the HEAD
+  numVarargs : Nat := 0          -- num_varargs (interpret.c): arguments added by `...` spreads that the next call / efun /
+                                 -- array literal instruction adds to its count; cleared by that instruction and by restore_context
   hbCur : Val := 0               -- current_heart_beat (backend.c): the object whose heart_beat() is running, 0 = none
   hbOff : List Val := []         -- objects whose heart beat error_handler has switched off (set_heart_beat (ob, 0)), newest first
   deriving Repr, Inhabited
@@ -170,10 +172,10 @@ def saveContext (m : M) : Option (Ctx × M) :=
     when it saved) and clear the error state -/
 def popContext (link : List Ctx) (m : M) : M := { m with ctxs := link, errState := 0 }
 
-/-- restore_context, exactly as coded: command_giver, the two guards (restore_object_limits) and last_verb; if csp > save_csp then csp = save_csp + 1 and ONE
+/-- restore_context, exactly as coded: command_giver, the two guards (restore_object_limits), last_verb, `num_varargs = 0`; if csp > save_csp then csp = save_csp + 1 and ONE
     pop_control_stack; then pop_n_elems (sp - save_sp) — a negative difference converts to a huge size_t -/
 def restoreContext (e : Ctx) (m : M) : Res :=
-  let m1 := { m with cg := e.saveCg, loadDepth := e.saveLd, restrictDestruct := e.saveRd, lastVerb := e.saveVerb }
+  let m1 := { m with cg := e.saveCg, loadDepth := e.saveLd, restrictDestruct := e.saveRd, lastVerb := e.saveVerb, numVarargs := 0 }
   let m2? : Option M :=
     if m1.cs.length > e.saveCsp then
       popFrame { m1 with cs := m1.cs.drop (m1.cs.length - (e.saveCsp + 1)) }
@@ -339,6 +341,9 @@ inductive Op
   | dhook (v : Val) (body : Prog)               -- destruct_object: restrict_destruct = v around the move_or_destruct apply
   | vital (isMaster : Bool) (body : Prog)       -- destruct_object of the master / simul_efun object: push the fix_object_names
                                                 -- slot, record both names, blank the object's name, reload (body); `sp--`, name back
+  | spread (n : Nat)                            -- F_EXPAND_VARARGS of an n-element array: `num_varargs += n - 1`
+  | consume                                     -- the instruction that uses the count (F_EFUNV, F_CALL_FUNCTION_BY_ADDRESS, F_AGGREGATE …):
+                                                -- `… + num_varargs; num_varargs = 0;` BEFORE anything in it can raise an error
   | verb (v : Val) (body : Prog)                -- user_parser (simulate.c): `last_verb = …` around the call of a verb function,
                                                 -- `last_verb = 0` after it returned (normal path only)
   | heartBeat (ob cgv : Val) (body : Prog)      -- call_heart_beat (backend.c), one object: current_heart_beat = ob; command_giver = ob
@@ -657,6 +662,8 @@ def execCore : Op → M → Res
     let m1 : M := { m with vs := Slot.handler fixNamesId :: m.vs, savedMasterName := m.masterName, savedSimulName := m.simulName }
     let m2 : M := if isMaster then { m1 with masterName := 0 } else { m1 with simulName := 0 }
     vitalFinish isMaster (if isMaster then m.masterName else m.simulName) (exec body m2)
+  | .spread n, m => .ok { m with numVarargs := m.numVarargs + (n - 1) }
+  | .consume, m => .ok { m with numVarargs := 0 }
   | .verb v body, m => verbFinish (exec body { m with lastVerb := v })
   | .heartBeat ob cgv body, m =>
     -- call_heart_beat: the registers are set BEFORE the frame is pushed by call_function (push_control_stack, FRAME_FUNCTION |
